@@ -3,12 +3,15 @@ import HL.Spec.GCore
 import HL.Model.Pipeline
 open Lean
 /-!
-  Ops for the core grammar `GCore` of C03 (theorem `HL.Props.C03.C03_faithful_core`).
+  Ops for the core grammar `GCore` of C03 (theorems `HL.Props.C03.C03_faithful_core` and, for
+  CRLF line ends, `C03_faithful_core_crlf`).  `cr` (absent = false) chooses the line end:
+  `GCore.printC cr` / `GCore.expectedC cr`, which for `cr = false` are `GCore.print` /
+  `GCore.expected` (`HL.Props.C03.printC_expectedC_false`).
 
-  * `c03.gcore.print` — the harness asks for `GCore.print j` (so the text the real parser sees
+  * `c03.gcore.print` — the harness asks for `GCore.printC cr j` (so the text the real parser sees
     is produced by the very function the theorem quantifies over).
   * `c03.gcore` — the case proper: `g` = the journal, `text` = what was printed and parsed,
-    `impl` = the real parser's result.  model = `(GCore.print j, GCore.expected j, [])` — by the
+    `impl` = the real parser's result.  model = `(printC cr j, expectedC cr j, [])` — by the
     theorem that is what the lexer+parser model returns on every well-formed journal, and the
     driver re-checks that on each case (`thm`; a disagreement is reported as a machinery error); spec_ok = the real parser reports no error and
     returns exactly the expected tree, ranges included.
@@ -34,7 +37,7 @@ def gcTxOf (j : Json) : GCore.Tx :=
 def gcJournalOf (j : Json) : GCore.Journal := arrOf gcTxOf j
 
 def printOp (j : Json) : Json :=
-  Json.mkObj [("text", hx (GCore.print (gcJournalOf (jget j "g"))))]
+  Json.mkObj [("text", hx (GCore.printC (jbool j "cr") (gcJournalOf (jget j "g"))))]
 
 def gcore (j : Json) : Json :=
   let g := gcJournalOf (jget j "g")
@@ -42,8 +45,9 @@ def gcore (j : Json) : Json :=
   let impl := jget j "impl"
   let tree := journalOf (jget impl "journal")
   let errs := arrOf perrOf (jget impl "errors")
-  let text := GCore.print g
-  let expected := GCore.expected g
+  let cr := jbool j "cr"
+  let text := GCore.printC cr g
+  let expected := GCore.expectedC cr g
   -- the lexer+parser model on the printed text
   let (mj, merrs) := HL.Pipeline.parseText Classes.go text
   -- what the theorem says about this case
@@ -58,7 +62,7 @@ def gcore (j : Json) : Json :=
     else ""
   if !thm then
     -- cannot happen (kernel-checked theorem); if it does, the machinery is broken, not the code
-    Json.mkObj [("error", "the compiled model disagrees with theorem C03_faithful_core on a well-formed GCore journal")]
+    Json.mkObj [("error", "the compiled model disagrees with theorem C03_faithful_core / C03_faithful_core_crlf on a well-formed GCore journal")]
   else
   Json.mkObj [("model", model), ("spec_ok", ok), ("in_domain", wf), ("known", Json.arr #[]),
     ("why", why), ("nontrivial", wf && !g.isEmpty)]
